@@ -309,12 +309,21 @@ def check(ck):
     finit9 = prog.func(TP, "ThreadPool.__init__")
     gi9 = cfg_of(finit9)
     pdi9 = _pdm(gi9, [gi9.return_exit.id], _NORMAL)
-    sets9 = [n for n in gi9.live_nodes() for c in node_calls(n) if dump(c.func) == "self._done_event.set"]
-    clears9 = [n for n in gi9.live_nodes() for c in node_calls(n) if dump(c.func) == "self._done_event.clear"]
-    # arguments are validated first (the constructor may leave by ValueError); once the event exists it is set on every normal path
-    mk9 = [n for n in gi9.live_nodes() if n.kind == "stmt" and isinstance(n.ast, ast.Assign) and any(dump(t) == "self._done_event" for t in n.ast.targets)]
-    ck.require(len(mk9) == 1 and any(s_.id in pdi9[mk9[0].id] for s_ in sets9) and not clears9, "C09.6",
-               "%s: a new pool is in the stopped state" % q.fn(finit9), "self._done_event.set() after the event is created",
+    def _is_event(node, e):
+        if dump(e) == "self._done_event":
+            return True
+        t = prov.origin(gi9, node, e)
+        return t[0] == "call" and prov.show(t[1]).endswith("Event") and all(a_[0] == "call" for a_ in prov.value_alts(t))
+    sets9 = set(n.id for n in gi9.live_nodes() for c in node_calls(n)
+                if isinstance(c.func, ast.Attribute) and c.func.attr == "set" and not c.args and _is_event(n, c.func.value))
+    clears9 = [n for n in gi9.live_nodes() for c in node_calls(n) if isinstance(c.func, ast.Attribute) and c.func.attr == "clear" and _is_event(n, c.func.value)]
+    mk9 = [n for n in gi9.live_nodes() if n.kind == "stmt" and isinstance(n.ast, ast.Assign) and any(dump(t) == "self._done_event" for t in n.ast.targets)
+           and _is_event(n, n.ast.value)]
+    from vlib.flow import reachable_avoiding as _ra9
+    # arguments are validated first (the constructor may leave by ValueError); every normal completion has set the event
+    completes_unset = gi9.return_exit.id in _ra9(gi9, gi9.entry.id, sets9, lambda l: l != "exc")
+    ck.require(len(mk9) == 1 and bool(sets9) and not completes_unset and not clears9, "C09.6",
+               "%s: a new pool is in the stopped state" % q.fn(finit9), "the stop event is created, set, and stored in self._done_event",
                "the constructor does not leave the stop flag set: a new pool counts as running, start() is a no-op (no worker is created by "
                "start(), min_threads is not honoured) and tasks enqueued before start() are executed at once", q.loc(finit9, finit9.node))
     g = cfg_of(fstart)
